@@ -46,3 +46,24 @@ def as_mesh_ref(b):
 
 def mesh_json(p, sh):
     return [list(p), sorted(list(c) for c in sh)]
+
+
+def biv_views(p, sh):
+    """If the shading is exactly a union of full columns and full rows: the same pattern as
+    BivincularPatt (and VincularPatt / CovincularPatt when only columns / rows), else [].
+    [(kind, library object)]"""
+    p = tuple(p)
+    sh = frozenset(tuple(c) for c in sh)
+    k = len(p)
+    cols = [x for x in range(k + 1) if all((x, y) in sh for y in range(k + 1))]
+    rows = [y for y in range(k + 1) if all((x, y) in sh for x in range(k + 1))]
+    if sh != biv_shading(k, set(cols), set(rows)):
+        return []
+    if k == 0 and sh:
+        cols, rows = [0], []
+    views = [("biv", BivincularPatt(Perm(p), cols, rows))]
+    if not rows:
+        views.append(("vin", VincularPatt(Perm(p), cols)))
+    if not cols:
+        views.append(("cov", CovincularPatt(Perm(p), rows)))
+    return views
